@@ -45,7 +45,9 @@ def brew_cases(ctx, rng):
                       "fmt": "parquet" if (j // 12) % 2 else "pin", "thr": thr, "train_thr": thr, "seed": j,
                       "est": ["feat", "const", "anti", "proba"][j % 4], "col": 1, "direction": "f1" if (j // 4) % 3 == 2 else None,
                       "label_enc": ["1/-1", "1/0", "bool"][(j // 24) % 3], "override": bool((j // 72) % 4 == 3),
-                      "lower_better": lower_better, "max_iter": 1 + j % 2, "prior": "flip" if j % 5 == 2 else None})
+                      "lower_better": lower_better, "max_iter": 1 + j % 2, "prior": "flip" if j % 5 == 2 else None,
+                      # the discriminating feature stored as whole numbers (int64 column), next to a float column without information
+                      "int_feats": bool(j % 3 == 1)})
         if j % 8 == 7:      # a second collection
             rows2 = rows_from_shape(spec_of[: n // 2], rng, id0=1000)
             for r in rows2:
